@@ -393,7 +393,11 @@ run_config(const gcfg *c, int deep)
     memset(&G, 0, sizeof G);
     G.c = *c;
     enum_regions();
-    int w[2];
+    int w[2] = {0, 0};
+    /* no write at all (plain and chunked storage, where partial writing is supported and never-written pixels are
+       defined to be the fill value): every read of the new image returns the fill pixel, in every requested interlace */
+    if (!(c->storage == S_RLE || c->storage == S_DEFLATE || c->storage == S_SKPHUFF) && run_history(c, w, 0, 0, 1))
+        return;
     if (c->storage == S_RLE || c->storage == S_DEFLATE || c->storage == S_SKPHUFF) {
         /* non-chunked compressed rasters: whole-image writes only (coder contract), once and rewritten */
         int wh[2] = {-1, -1};
